@@ -126,6 +126,9 @@ pub fn order_scripts() -> Vec<String> {
         "before:1:3;get:3",
         "after:9:2;get:2",
         "before:9:2;get:2",
+        "before:3:1;get:1;get:2;get:3",
+        "after:3:1;get:1;get:2;get:3",
+        "before:1:3;get:1;get:2;get:3",
         "after:2:2;get:2",
         "before:2:2;get:2",
         "drop:2;get:3;remove:2;after:2:4",
